@@ -207,6 +207,9 @@ def builder_stages(prop, tier, seed):
     # 4.4 million states, 7.1e5 forced schedules, about 17 minutes)
     sched = builder_stage("sched", prop, seed, {"Callers": '{"c1", "c2"}', "MaxAdds": "1" if q else "2", "Adds": "<- MCAddsR", "RegPkgs": "{}",
                                                  "Concurrent": "TRUE", "MaxEdges": "2" if q else "1", "LocalRels": "<- MCLocalRels0"})
+    # three concurrent callers with one Add each (thorough)
+    sched3 = builder_stage("sched3", prop, seed, {"Callers": '{"c1", "c2", "c3"}', "MaxAdds": "1", "Adds": "<- MCAddsR", "RegPkgs": "{}",
+                                                   "Concurrent": "TRUE", "MaxEdges": "1", "LocalRels": "<- MCLocalRels0"})
     conc = builder_stage("conc", prop, seed, {"Adds": "<- MCAddsR", "RegPkgs": "{}", "MaxEdges": "1", "MaxAdds": "2", "Contents": "{1, 2}"},
                          race=True, vh_args=["-props", prop, "-gamma", "%d" % (seed * 6), "-mode", "conc"])
     # direction B: random worlds larger than the enumerated ones (3 packages x 3 module locations x 2 finders, up to 3 reported
@@ -215,7 +218,7 @@ def builder_stages(prop, tier, seed):
     live = [dict(kind="design", name="live1", module="Live_Builder", cfg="Live_Builder.cfg", properties=["Terminates", "EachDrainEnds", "QueuesBounded"]),
             dict(kind="design", name="live2", module="Live_Builder", cfg="Live_Builder2.cfg", properties=["Terminates", "EachDrainEnds", "QueuesBounded"])]
     if prop == "C14":
-        return [base, fan, sched, finders, conc, rand_worlds] if q else live + [conc, rand_worlds, base, fan, sched, finders, builder_stage("graph3", prop, seed, {"MaxEdges": "3", "Finders": '{"F1", "F2"}', "Adds": "<- MCAdds3", "Pkgs": '{"P1", "P2", "P3"}'}, sim={"num": 40000, "depth": 60}, workers=1)]
+        return [base, fan, sched, finders, conc, rand_worlds] if q else live + [conc, rand_worlds, base, fan, sched, sched3, finders, builder_stage("graph3", prop, seed, {"MaxEdges": "3", "Finders": '{"F1", "F2"}', "Adds": "<- MCAdds3", "Pkgs": '{"P1", "P2", "P3"}'}, sim={"num": 40000, "depth": 60}, workers=1)]
     # finders that return warnings together with the dependencies they report
     warn = builder_stage("warn", prop, seed, {"DiagKinds": '{"none", "warn"}', "MaxEdges": "2", "MaxAdds": "1", "Adds": "<- MCAddsR", "RegPkgs": "{}"})
     if prop == "C08":
@@ -239,7 +242,7 @@ def builder_stages(prop, tier, seed):
     if prop == "C13":
         # all sequences of up to four Add calls (with repeats) over the four-add universe, each against its canonical order
         perm4 = builder_stage("perm4", prop, seed, {"MaxAdds": "4", "MaxEdges": "0", "Contents": "{1, 2}"})
-        return [coal, ignvar, base, regsub, sched, conc, perm4, rand_worlds] if not q else [coal, ignvar, regsub, sched, conc, rand_worlds]
+        return [coal, ignvar, base, regsub, sched, sched3, conc, perm4, rand_worlds] if not q else [coal, ignvar, regsub, sched, conc, rand_worlds]
     if prop == "C09":
         return [coal] if q else [coal, vers, base]
     raise KeyError(prop)
@@ -490,7 +493,10 @@ def check(vc, prop, tier, seed, t0):
     stage_info = []
     flag_counts = {}
     try:
+        only = [x for x in os.environ.get("VERIF_STAGES", "").split(",") if x]     # development aid: run some stages only
         for stage in P["stages"](prop, tier, seed):
+            if only and stage["name"] not in only:
+                continue
             if stage.get("kind") == "rec":
                 pairs, rstats = vc.run_rec_stage(vh, scratch, stage, seed)
                 same = sum(1 for _, j in pairs if j.get("same"))
